@@ -26,6 +26,8 @@ STMTS = [
     [('x', ['y']), ('y', ['x'])],     # parallel swap
     [('c', ['y'])],                   # c = y   (c is the branch condition)
     [('z', [])],                      # unrelated
+    [('y', ['x', 'M'])],              # y = @32[x]     (M stands for the memory cell @32[x]; x is read as a pointer)
+    [('M', ['x', 'y'])],              # @32[x] = y
 ]
 SUCC3 = [(), (0,), (1,), (2,), (0, 1), (0, 2), (1, 2)]
 SUCC4 = [(), (0,), (1,), (2,), (3,), (0, 1), (0, 2), (0, 3), (1, 2), (1, 3), (2, 3)]
@@ -33,18 +35,22 @@ SUCC4 = [(), (0,), (1,), (2,), (3,), (0, 1), (0, 2), (0, 3), (1, 2), (1, 3), (2,
 META = dict(
     functions=["miasm.analysis.data_flow.ReachingDefinitions.compute / process_block / process_assignblock",
                "DiGraphDefUse._compute_def_use_block", "IRBlockLivenessInfos", "DiGraphLiveness.compute_liveness / "
-               "back_propagate_compute / back_propagate_to_parent", "DiGraphLivenessIRA.init_var_info"],
+               "back_propagate_compute / back_propagate_to_parent", "DiGraphLivenessIRA.init_var_info",
+               "DiGraphLivenessSSA.__init__ / back_propagate_to_parent (on the SSA form produced by the real SSADiGraph)",
+               "miasm.analysis.ssa.get_phi_sources_parent_block / irblock_has_phi"],
     stubs=["lifter.get_out_regs -> {x} (the variable observed at the exits, for DiGraphLivenessIRA)"],
     bounds=dict(quick=dict(blocks=3, shapes="every successor assignment (leaf / one / two successors per block) with all blocks "
                                             "reachable from the first", statements_per_block=1, statement_table=len(STMTS)),
                 thorough=dict(blocks="3 and 4", shapes="3 blocks: as quick with 2 statements in the first block; 4 blocks: 300 shapes "
                                                        "from a fixed stream", statements_per_block="1 (2 in the first block of "
                                                        "3-block graphs)", statement_table=len(STMTS))),
-    outside=["memory operands (register variables only)", "graphs with an edge to a location that has no IR block", "DiGraphLivenessSSA (phi handling)", "graphs with more than 4 blocks",
+    outside=["memory cells other than the one syntactic cell @32[x] (treated as the pseudo-variable M, as the analyses do)", "graphs with an edge to a location that has no IR block", "graphs with more than 4 blocks",
              "blocks unreachable from the first block"],
     assumptions=["an assignment block reads all its sources before it writes (parallel assignment)",
                  "the branch condition is read by the block's last assignment (IRDst = c ? L1 : L2); a leaf ends with IRDst = r",
-                 "at a leaf the out registers of DiGraphLivenessIRA are read"],
+                 "at a leaf the out registers of DiGraphLivenessIRA are read",
+                 "SSA liveness: a phi operand is read on the edge from the predecessor whose dominator chain meets its definition "
+                 "first; the live-in set of the phi assignment itself is not compared (convention); no out registers"],
     rule="program = shape x statement choices; each (program, analysis) is one obligation over every program point; non-trivial = "
          "program whose graph has a cycle",
     explanation="Bounded exhaustive exploration: the solver enumerates statement choices for each fixed shape; the real analyses "
@@ -91,7 +97,8 @@ def tasks(tier, seed):
 
 
 def twins(tier):
-    return [dict(id='twin:oracle-forgets-kill', succs=[[1], [1, 2], []], slots=[1, 1, 1], tier=tier, bug='no_kill')]
+    return [dict(id='twin:oracle-forgets-kill', succs=[[1], [1, 2], []], slots=[1, 1, 1], tier=tier, bug='no_kill'),
+            dict(id='twin:phi-operands-read-on-every-edge', succs=[[1, 2], [2], []], slots=[1, 1, 1], tier=tier, bug='phi_all_preds')]
 
 
 # ------------------------------------------------------------------------------------------------ program construction
@@ -112,7 +119,9 @@ def build_ircfg(succs, prog):
     from miasm.ir.ir import IRCFG, IRBlock, AssignBlock
     loc_db = LocationDB()
     L = [loc_db.add_location(name='B%d' % i) for i in range(len(succs))]
+    from miasm.expression.expression import ExprMem
     V = {n: ExprId(n, 32) for n in 'xyzcr'}
+    V['M'] = ExprMem(V['x'], 32)
     IRDst = ExprId('IRDst', 32)
     V['IRDst'] = IRDst
     ircfg = IRCFG(IRDst, loc_db)
@@ -131,6 +140,10 @@ def build_ircfg(succs, prog):
                         src = ExprCond(V['c'], ExprLoc(L[ss[0]], 32), ExprLoc(L[ss[1]], 32))
                 elif not reads:
                     src = ExprInt(1, 32)
+                elif 'M' in reads:
+                    src = V['M']                      # load: reads the pointer x and the cell
+                elif dst == 'M':
+                    src = V['y']                      # store: reads the pointer x (through the destination) and y
                 elif len(reads) == 1:
                     src = V[reads[0]]
                 else:
@@ -256,13 +269,16 @@ def compare(succs, prog, bug=None):
                 bad.setdefault('reaching-definitions', "at (B%d, %d): implementation %s, paths give %s" % (
                     b, i, sorted((k, sorted(v)) for k, v in got.items()), sorted((k, sorted(v)) for k, v in w.items())))
                 return
+    if bug == 'phi_all_preds':
+        guarded('liveness-ssa', lambda: ssa_liveness(succs, prog, bad, bug))
+        return bad
     guarded('reaching-definitions', rd_)
     if bug:
         return bad
 
     def du_():
         rd = holder.get('rd') or ReachingDefinitions(ircfg)
-        du = DiGraphDefUse(rd)
+        du = DiGraphDefUse(rd, deref_mem=True)
         wn, we = o_defuse(succs, prog, want_rd)
         conv = lambda n_: (bidx[n_.label], n_.index, name[n_.var])
         gn = set(conv(n_) for n_ in du.nodes())
@@ -299,10 +315,125 @@ def compare(succs, prog, bug=None):
         return f
     guarded('liveness', live_(DiGraphLiveness, None, 'liveness'))
     guarded('liveness-ira', live_(DiGraphLivenessIRA, ['x'], 'liveness-ira'))
+    guarded('liveness-ssa', lambda: ssa_liveness(succs, prog, bad))
     return bad
 
 
-ALGOS = ['reaching-definitions', 'def-use', 'liveness', 'liveness-ira']
+def ssa_liveness(succs, prog, bad, bug=None):
+    """DiGraphLivenessSSA on the SSA form of the program (built by the real SSADiGraph, which is only the program
+    generator here) against a path oracle in which a phi operand is read on the edge from the predecessor it comes from
+    (the predecessor whose dominator chain meets the operand's definition first)."""
+    from miasm.analysis.ssa import SSADiGraph
+    from miasm.analysis.data_flow import DiGraphLivenessSSA
+    from miasm.expression.expression import get_expr_ids
+    loc_db, L, V, ircfg = build_ircfg(succs, prog)
+    ssa = SSADiGraph(ircfg)
+    ssa.transform(L[0])
+    g = ssa.graph
+    locs = sorted(g.blocks, key=lambda lk: lk.key)
+    idx = {lk: i for i, lk in enumerate(locs)}
+    n = len(locs)
+    adj = set((idx[a], idx[b]) for a, b in g.edges() if a in idx and b in idx)
+    preds = {b: sorted(a for a, b2 in adj if b2 == b) for b in range(n)}
+    # statements: per block list of (writes, reads, phi: {var: [sources]})
+    blocks = []
+    defblock = {}
+    for lk in locs:
+        stm = []
+        for ai, ab in enumerate(g.blocks[lk]):
+            ws, rs, phis = set(), set(), {}
+            for dst, src in ab.items():
+                if dst.is_mem():
+                    # store: memory is not an SSA variable; the pointer and the source are read
+                    rs |= set(x.name for x in get_expr_ids(dst.ptr)) | set(x.name for x in get_expr_ids(src))
+                    continue
+                ws.add(dst.name)
+                defblock[dst.name] = (idx[lk], ai)
+                if src.is_op('Phi'):
+                    phis[dst.name] = [a.name for a in src.args]
+                else:
+                    rs |= set(x.name for x in get_expr_ids(src))
+            stm.append((ws, rs, phis))
+        blocks.append(stm)
+    head = idx[L[0]] if L[0] in idx else 0
+    heads = [b for b in range(n) if not preds[b]] or [head]
+    root = heads[0]
+    dom = o_dominators_simple(n, adj, root)
+
+    def source_for(pred, sources):
+        # nearest definition on the dominator chain of pred (pred itself first)
+        chain = sorted(dom.get(pred, {pred}), key=lambda d: -len(dom.get(d, ())))
+        for d in chain:
+            for sname in sources:
+                if sname in defblock and defblock[sname][0] == d:
+                    return sname
+        return None
+    live = {(b, i): set() for b in range(n) for i in range(len(blocks[b]) + 1)}
+
+    def back(v, start):
+        todo = [start]
+        while todo:
+            p_ = todo.pop()
+            if v in live[p_]:
+                continue
+            live[p_].add(v)
+            b, i = p_
+            if i > 0:
+                if v not in blocks[b][i - 1][0]:
+                    todo.append((b, i - 1))
+            else:
+                for q in preds[b]:
+                    todo.append((q, len(blocks[q])))
+    for b in range(n):
+        for i, (ws, rs, phis) in enumerate(blocks[b]):
+            for v in rs:
+                back(v, (b, i))
+            for dst, sources in phis.items():
+                for q in preds[b]:
+                    sname = source_for(q, sources)
+                    if sname is None:
+                        raise RuntimeError("no phi operand of %s comes from predecessor %d" % (dst, q))
+                    back(sname, (q, len(blocks[q])))
+                    if bug == 'phi_all_preds':
+                        for other in sources:            # deliberately wrong: every operand is read on every edge
+                            back(other, (q, len(blocks[q])))
+    lv = DiGraphLivenessSSA(g)
+    lv.init_var_info(FakeLifter([]))
+    lv.compute_liveness()
+    for b in range(n):
+        infos = lv.blocks[locs[b]].infos
+        for i in range(len(blocks[b])):
+            is_phi = bool(blocks[b][i][2])
+            gi = set(v.name for v in infos[i].var_in if v.is_id())
+            go = set(v.name for v in infos[i].var_out if v.is_id())
+            if not is_phi and gi != live[(b, i)]:
+                bad.setdefault('liveness-ssa', "SSA form: live before %s[%d]: implementation %s, paths give %s" % (
+                    loc_db.pretty_str(locs[b]), i, sorted(gi), sorted(live[(b, i)])))
+                return
+            if go != live[(b, i + 1)]:
+                bad.setdefault('liveness-ssa', "SSA form: live after %s[%d]: implementation %s, paths give %s" % (
+                    loc_db.pretty_str(locs[b]), i, sorted(go), sorted(live[(b, i + 1)])))
+                return
+
+
+def o_dominators_simple(n, adj, head):
+    def reach(avoid):
+        if head == avoid:
+            return set()
+        seen = {head}
+        todo = [head]
+        while todo:
+            x = todo.pop()
+            for (a, b) in adj:
+                if a == x and b != avoid and b not in seen:
+                    seen.add(b)
+                    todo.append(b)
+        return seen
+    R = reach(None)
+    return {x: set(d for d in R if d == x or x not in reach(d)) for x in R}
+
+
+ALGOS = ['reaching-definitions', 'def-use', 'liveness', 'liveness-ira', 'liveness-ssa']
 
 
 def has_cycle(succs):
@@ -350,7 +481,7 @@ def run_task(task):
         if cyc:
             nontriv[0] += 1
         bad = compare(succs, prog, bug)
-        for a in (ALGOS if not bug else ALGOS[:1]):
+        for a in (ALGOS if not bug else (ALGOS[:1] if bug == 'no_kill' else ['liveness-ssa'])):
             eng.oblige(a, z3.BoolVal(a not in bad), dict(choice=choice, program=show(succs, prog), mismatch=bad.get(a)))
     recs = eng.explore(fn)
     common.absorb_engine(res, eng, recs, task['id'])
